@@ -162,7 +162,9 @@ namespace ip {
 #define RXV_APIV(expr) do { rxv::ip::Api rxv_api_scope(#expr); (expr); } while (0)
 
 void installSignalHandlers();
-void signalSafeViolation(const char* key); // async-signal-safe violation record for the case in progress
+void signalSafeViolation(const char* key);
+void armRunWatchdog(const char* key, unsigned seconds); // SIGALRM -> violation `key` for the case in progress, exit
+void disarmRunWatchdog(); // async-signal-safe violation record for the case in progress
 
 // ---------------------------------------------------------------- subcommands
 typedef int (*SubFn)(const Args&);
